@@ -595,6 +595,82 @@ func runC14() {
 			}
 		}
 	}
+	// ---- a NEGATED operand under a binary operator (`a op -b`, `-a op b`): the negation is computed in the operand's OWN kind
+	//      (it wraps at the kind's minimum) and THEN the pair is promoted - `x - -y` is not `x + y` when y is the minimum of a
+	//      narrower kind.  All ordered kind pairs, boundary grids, typed and untyped.
+	{
+		refNeg := func(k *kindInfo, v interface{}) interface{} {
+			rv := reflect.ValueOf(v)
+			switch {
+			case k.float:
+				return reflect.ValueOf(-rv.Float()).Convert(k.t).Interface()
+			case k.signed:
+				return reflect.ValueOf(-rv.Int()).Convert(k.t).Interface()
+			}
+			return reflect.ValueOf(-rv.Uint()).Convert(k.t).Interface()
+		}
+		run2 := func(src string, typed bool, x, y interface{}) (interface{}, error, bool) {
+			env := map[string]interface{}{"a": x, "b": y}
+			var p *vm.Program
+			var err error
+			if typed {
+				p, err = expr.Compile(src, expr.Env(env))
+			} else {
+				p, err = expr.Compile(src)
+			}
+			if err != nil {
+				return nil, err, false
+			}
+			out, rerr := vm.Run(p, env)
+			return out, rerr, true
+		}
+		for xi := range kinds {
+			for yi := range kinds {
+				kx, ky := &kinds[xi], &kinds[yi]
+				gx, gy := gridOf(kx, rng, 0), gridOf(ky, rng, 0)
+				for _, op := range []string{"-", "+", "*", "==", "<"} {
+					for n := 0; n < 10; n++ {
+						x, y := gx[rng.Intn(len(gx))], gy[rng.Intn(len(gy))]
+						if n < 4 { // the extrema of both grids first
+							x, y = gx[(n*7)%len(gx)], gy[n%len(gy)]
+						}
+						if n == 4 || n == 5 {
+							y = reflect.ValueOf(minOfKind(ky)).Convert(ky.t).Interface()
+						}
+						for form := 0; form < 2; form++ {
+							src, l, r := "a "+op+" -b", x, refNeg(ky, y)
+							if form == 1 {
+								src, l, r = "-a "+op+" b", refNeg(kx, x), y
+							}
+							wants, werrs := refRule(op, l, r)
+							for _, typed := range []bool{true, false} {
+								got, err, compiled := run2(src, typed, x, y)
+								rep.Evaluations++
+								rep.hist("negated operand under a binary operator")
+								if !compiled {
+									continue
+								}
+								ok := false
+								for i := range wants {
+									if (werrs[i] == "" && err == nil && sameValue(got, wants[i])) || (werrs[i] != "" && errClass(err) == werrs[i]) {
+										ok = true
+									}
+								}
+								if !ok {
+									fk := "C14-other"
+									if inKnownRank(kx, ky) {
+										fk = "C14-rank"
+									}
+									rep.fail(Failure{Key: fk, What: "run-time result differs from the promotion rule (negated operand: negate in the operand's kind, then promote)",
+										Input: map[string]interface{}{"expr": src, "a": fmtVal(x), "b": fmtVal(y), "typed": typed}, Want: fmt.Sprintf("%v %v", wants, werrs), Got: fmt.Sprintf("%s / %v", fmtVal(got), err)})
+								}
+							}
+						}
+					}
+				}
+			}
+		}
+	}
 	rep.Distinct = len(distinct)
 	rep.Exhaustive = true
 	rep.Rule = "exhaustive over the 12x12 ordered kind pairs x 12 binary operators (10 helpers, !=, **) and 12 kinds x unary minus; per kind a grid of boundary values (0, +-1, extrema, values that truncate or change sign under conversion, non-representable float32 values, NaN, infinities) plus seeded random values; every value pair of the grids is run through expr (untyped and Env-typed compilation) and judged against Go's own conversion+operator after the property's rank; distinct_nontrivial counts distinct (op, x, y) with operands of two different kinds; a seeded sample per (helper, kx, ky) is also evaluated in the Coq model instantiated with the regenerated table; plus 12 kinds x 12 operators x 16 integer LITERALS in both operand orders and 7 left-associative chains of two literals (floats at 2^24 / 2^53 / 1e16 included), typed and untyped with the optimizer on, judged by the same rule with the literal as an int"
@@ -603,6 +679,19 @@ func runC14() {
 	}
 	rep.writeShards("cases_c14", "From Coq Require Import ZArith List Floats.\nRequire Import X.Base.Num X.gen.GenHelpers X.Corr.CorrC14.\nImport ListNotations.\nOpen Scope Z_scope.\n", "c14case", "c14_mismatches", cases)
 	rep.write()
+}
+
+// minOfKind: the most negative value of a signed integer kind (0 for unsigned kinds, -MaxFloat for floats)
+func minOfKind(k *kindInfo) interface{} {
+	switch {
+	case k.float && k.width == 32:
+		return float32(-math.MaxFloat32)
+	case k.float:
+		return -math.MaxFloat64
+	case !k.signed:
+		return uint64(0)
+	}
+	return int64(-1) << uint(k.width-1)
 }
 
 // floats at the edge of exact integer representation (two roundings differ from one)
